@@ -7,4 +7,4 @@ def run(tier, seed, replay):
         "one case = a pair of instances of one VT schema drawn from a pool holding, for each value TLC enumerates (base and every single-position mutation incl. +0/-0, NaN, unset vs set optional, other union member, map insertion orders), four representations: built, rebuilt independently, nil for empty collections, round-tripped; all pairs for pools up to 632 instances, 400000 seeded pairs beyond; the oracle for equality is the specification's normal form Norm",
         ["reflexivity / symmetry / transitivity: Equals must coincide with equality of Norm (an equivalence), pairs involving NaN only must not be equal when Norm differs",
          "values carrying a raw record are skipped for Equals (RawRecord.Equals is never true by design)",
-         "hashes are compared within one process; C09's fresh-process digests cover process independence of encodings"], mode="c10")
+         "hashes are compared within one process; C09's fresh-process digests cover process independence of encodings"], mode="c10", cfg="MC_Codec_null.cfg")   # Equals / hash do not touch the wire: the null member of nullable unions is enumerated here
